@@ -56,9 +56,14 @@ def make_cases(rng, tier):
             failing = rng.sample(FAILING, 1) if nfail >= 1 else []      # one failing child: cited positions are deterministic
             combos.append((chosen, failing))
     # the SAME statement written two or three times in one block runs two or three times (children are statements, not texts)
+    # (not the map assignment: two goroutines writing one Go map is a race of the RULE's own making — the runtime may abort the
+    # process with "concurrent map writes" — and the extra child never writes the map either)
+    is_map_write = lambda ch: ch[0][0] == "asg" and ch[0][1]["target"][0] == "map"
     for k in (2, 3):
         for ch in pool:
-            combos.append(([ch] * k + rng.sample(pool, 1), []))
+            if is_map_write(ch):
+                continue
+            combos.append(([ch] * k + rng.sample([c for c in pool if not is_map_write(c)], 1), []))
     for chosen, failing in combos:
         for hold_kind in ("none", "func-child"):
             kids = [fresh(c) for c in chosen + failing]
